@@ -1,11 +1,18 @@
-(* C19 - TightVNC extension: every message type is gated, and every file-system call of every handler is below the transfer root *)
+(* C19 - TightVNC extension: every message type is gated per message, a dropped connection handles
+   nothing, and every file-system call of every handler (incl. the close hook run by rfbCloseClient and
+   the per-entry stat of a listing) is below the transfer root and fits its buffer - for the repaired flow;
+   refuted by witnesses for the tree *)
 From Coq Require Import ZArith List Bool Lia.
 From LV Require Import Gen.Consts_C19 Session.FileXferDefs Session.FileXferProofs Session.FileXferTight.
 Import ListNotations.
 Local Open Scope Z_scope.
 
-Definition v_tight_tree : tvariant := {| f19 := true; fstale := true |}.       (* the tree (fix commits 9f956a4, 7654ac8) *)
-Definition v_tight_prefix : tvariant := {| f19 := true; fstale := false |}.    (* the flow before 7654ac8 *)
+(* HEAD: 9f956a4 and 7654ac8 present; the two proposed fixes not yet *)
+Definition v_tight_tree : tvariant := {| f19 := true; fstale := true; fundone := false; flist := false |}.
+(* with notes/fix_C19_4.diff and notes/fix_C19_5.diff *)
+Definition v_tight_fixed : tvariant := {| f19 := true; fstale := true; fundone := true; flist := true |}.
+(* the flow before 7654ac8 (regression variant) *)
+Definition v_tight_prefix : tvariant := {| f19 := true; fstale := false; fundone := false; flist := false |}.
 
 Lemma conv_below : forall v root n p, f19 v = true -> conv v root n = Some p -> below_root root p.
 Proof.
@@ -20,92 +27,163 @@ Proof.
   destruct (walk_no_dotdot _ O E) as [d' Hd]. rewrite Hd. reflexivity.
 Qed.
 
-(* the stored upload name is empty or below the root *)
-Definition name_ok (root : str) (st : tstate) : Prop := up_name st = [] \/ below_root root (up_name st).
+(* what a file-system call of the extension must satisfy *)
+Definition op_ok (root : str) (o : tfs) : Prop :=
+  match o with
+  | TOverflow => False
+  | TStatEntry d n => below_root root d /\ dot_entry n = false /\ Zlength d + 1 + Zlength n < C19_PATH_MAX
+  | _ => below_root root (tfs_path o)
+  end.
+
+(* while the connection lives, the stored upload name is empty or below the root *)
+Definition name_ok (root : str) (st : tstate) : Prop :=
+  t_alive st = true -> up_name st = [] \/ below_root root (up_name st).
 
 Lemma close_undone_ok : forall root st ops st',
-  name_ok root st -> close_undone st = (ops, st') ->
-  Forall (fun o => below_root root (tfs_path o)) ops /\ name_ok root st'.
+  (up_active st = true -> up_name st = [] \/ below_root root (up_name st)) -> close_undone st = (ops, st') ->
+  Forall (op_ok root) ops /\ up_active st' = false /\ t_alive st' = t_alive st /\
+  (up_active st = true -> up_name st' = []) /\ (up_active st = false -> st' = st).
 Proof.
-  intros root st ops st' Hn. unfold close_undone. destruct (up_active st).
-  - intro H; inversion H; subst. split; [|left; reflexivity].
-    destruct Hn as [Hn|Hn]; [rewrite Hn; constructor|].
-    destruct (up_name st) eqn:E; constructor; auto.
-  - intro H; inversion H; subst. split; [constructor|exact Hn].
+  intros root st ops st' Hn. unfold close_undone. destruct (up_active st) eqn:Ea.
+  - intro H; inversion H; subst. simpl. repeat split; auto; try discriminate.
+    destruct (Hn eq_refl) as [Hx|Hx]; [rewrite Hx; constructor|].
+    destruct (up_name st) eqn:E; constructor; auto; try (simpl; exact Hx).
+  - intro H; inversion H; subst. repeat split; auto; try discriminate; try constructor.
 Qed.
 
-Lemma step_ok : forall root st m ops st',
-  name_ok root st -> tight_step v_tight_tree root st m = (ops, st') ->
-  Forall (fun o => below_root root (tfs_path o)) ops /\ name_ok root st'.
+Lemma entry_ops_ok : forall root dir entries,
+  below_root root dir -> Forall (op_ok root) (entry_ops v_tight_fixed dir entries).
 Proof.
-  intros root st m ops st' Hn.
-  assert (Nil : forall s0, name_ok root s0 -> (@nil tfs, s0) = (ops, st') ->
-                Forall (fun o => below_root root (tfs_path o)) ops /\ name_ok root st').
+  intros root dir entries Hd. induction entries as [|n rest IH]; cbn [entry_ops]; [constructor|].
+  destruct (dot_entry n) eqn:Ed; auto.
+  destruct (Zlength dir + 1 + Zlength n >=? C19_PATH_MAX) eqn:El; simpl; auto.
+  constructor; auto. simpl. repeat split; auto. lia.
+Qed.
+
+Lemma step_ok : forall root st gm ops st',
+  name_ok root st -> tight_step_g v_tight_fixed root st gm = (ops, st') ->
+  Forall (op_ok root) ops /\ name_ok root st'.
+Proof.
+  intros root st [g m] ops st' Hn. unfold tight_step_g. cbn [fst snd].
+  destruct (t_alive st) eqn:Ea; cbn [negb].
+  2:{ intro H; inversion H; subst. split; [constructor|]. intro X. congruence. }
+  specialize (Hn Ea).
+  assert (Hact : up_active st = true -> up_name st = [] \/ below_root root (up_name st)) by (intros _; exact Hn).
+  assert (Drop : forall o s, drop st = (o, s) -> Forall (op_ok root) o /\ name_ok root s).
+  { intros o s. unfold drop. destruct (close_undone st) as [o1 s1] eqn:Ec.
+    destruct (close_undone_ok root st o1 s1 Hact Ec) as [F _].
+    intro H; inversion H; subst. split; auto. intro X. simpl in X. discriminate. }
+  assert (Nil : forall s0, name_ok root s0 -> (@nil tfs, s0) = (ops, st') -> Forall (op_ok root) ops /\ name_ok root st').
   { intros s0 H0 H. inversion H; subst. split; [constructor|exact H0]. }
+  assert (Hst : name_ok root st) by (intros _; exact Hn).
+  destruct g; [|apply Drop].
   destruct m; cbn [tight_step].
   - destruct (len_ok name); [|apply Nil; auto].
-    destruct (conv v_tight_tree root name) as [p|] eqn:Ec; [|apply Nil; auto].
-    intro H; inversion H; subst. split; [repeat constructor; exact (conv_below v_tight_tree root name p eq_refl Ec)|auto].
+    destruct (conv v_tight_fixed root name) as [p|] eqn:Ec; [|apply Nil; auto].
+    assert (B : below_root root p) by exact (conv_below v_tight_fixed root name p eq_refl Ec).
+    intro H; inversion H; subst. split; auto. constructor; [exact B|apply entry_ops_ok; exact B].
   - destruct (len_ok name); [|apply Nil; auto].
-    destruct (conv v_tight_tree root name) as [p|] eqn:Ec; [|apply Nil; auto].
-    assert (B : below_root root p) by exact (conv_below v_tight_tree root name p eq_refl Ec).
+    destruct (conv v_tight_fixed root name) as [p|] eqn:Ec; [|apply Nil; auto].
+    assert (B : below_root root p) by exact (conv_below v_tight_fixed root name p eq_refl Ec).
     intro H; inversion H; subst. split; [repeat constructor; auto|auto].
   - destruct (len_ok name); [|apply Nil; auto].
-    destruct (conv v_tight_tree root name) as [p|] eqn:Ec.
-    + assert (B : below_root root p) by exact (conv_below v_tight_tree root name p eq_refl Ec).
-      intro H; inversion H; subst. split; [repeat constructor; auto|right; exact B].
-    + apply Nil. left. reflexivity.
-  - destruct fails; [apply close_undone_ok; auto|apply Nil; auto].
+    cbn [fundone v_tight_fixed]. destruct (close_undone st) as [pre st1] eqn:Ecu.
+    destruct (close_undone_ok root st pre st1 Hact Ecu) as [Fp [A1 [A2 _]]].
+    destruct (conv v_tight_fixed root name) as [p|] eqn:Ec.
+    + assert (B : below_root root p) by exact (conv_below v_tight_fixed root name p eq_refl Ec).
+      intro H; inversion H; subst. split.
+      * apply Forall_app. split; [exact Fp|repeat constructor; exact B].
+      * intros _. simpl. right. exact B.
+    + intro H; inversion H; subst. split; auto. intros _. simpl. left. reflexivity.
+  - cbn [fundone v_tight_fixed]. destruct (close_undone st) as [pre st1] eqn:Ecu.
+    destruct (close_undone_ok root st pre st1 Hact Ecu) as [Fp [A1 [A2 _]]].
+    unfold drop, close_undone. cbn [up_active]. rewrite A1.
+    intro H; inversion H; subst. split.
+    + rewrite app_nil_r. exact Fp.
+    + intro X. simpl in X. discriminate.
+  - destruct fails; [|apply Nil; auto].
+    intro H. destruct (close_undone_ok root st ops st' Hact H) as [F [B1 [B2 [B3 B4]]]]. split; auto.
+    intros _. destruct (up_active st) eqn:Eact; [left; apply B3; reflexivity|rewrite (B4 eq_refl); exact Hn].
   - intro H; inversion H; subst. split.
-    + destruct Hn as [Hn|Hn]; [rewrite Hn; constructor|]. destruct (up_name st) eqn:E; constructor; auto.
-    + exact Hn.
-  - destruct has_reason; [apply close_undone_ok; auto|apply Nil; auto].
+    + destruct Hn as [Hx|Hx]; [rewrite Hx; constructor|]. destruct (up_name st) eqn:E; constructor; auto; try (simpl; exact Hx).
+    + intros _. simpl. exact Hn.
+  - destruct has_reason; [|apply Nil; auto].
+    intro H. destruct (close_undone_ok root st ops st' Hact H) as [F [B1 [B2 [B3 B4]]]]. split; auto.
+    intros _. destruct (up_active st) eqn:Eact; [left; apply B3; reflexivity|rewrite (B4 eq_refl); exact Hn].
   - apply Nil; auto.
-  - destruct (Zlength name >=? C19_PATH_MAX - 1); [apply Nil; auto|].
-    destruct (conv v_tight_tree root name) as [p|] eqn:Ec; [|apply Nil; auto].
-    intro H; inversion H; subst. split; [repeat constructor; exact (conv_below v_tight_tree root name p eq_refl Ec)|auto].
+  - destruct (Zlength name >=? C19_PATH_MAX - 1); [apply Drop|].
+    destruct (conv v_tight_fixed root name) as [p|] eqn:Ec; [|apply Nil; auto].
+    intro H; inversion H; subst. split; [repeat constructor; exact (conv_below v_tight_fixed root name p eq_refl Ec)|auto].
+  - apply Drop.
 Qed.
 
-(* C19_tight_every_entry_confined (the tree): for every sequence of extension messages of every
-   type, every name, every outcome of creat/write: every path handed to the file system is
-   root ++ "/" ++ rel with rel never climbing above the root *)
-Theorem tight_every_entry_confined : forall reg en vo root ms st,
-  name_ok root st ->
-  Forall (fun o => below_root root (tfs_path o)) (tight_run v_tight_tree reg en vo root st ms).
+(* C19_tight_every_entry_confined (repaired flow: tree + fix_C19_4 + fix_C19_5): for every sequence of
+   extension messages of every type with the gate evaluated per message, every name (complete or cut
+   short), every listing, every outcome of creat/write, and a connection dropped at any point: every
+   file-system call - incl. the unlink of the close hook and the per-entry stat - is below the root
+   (root ++ "/" ++ rel, rel never climbing above it) and no path buffer overflows *)
+Theorem tight_every_entry_confined : forall root ms st,
+  name_ok root st -> Forall (op_ok root) (tight_run v_tight_fixed root st ms).
 Proof.
-  intros reg en vo root ms. induction ms as [|m rest IH]; intros st Hn; cbn [tight_run]; [constructor|].
-  destruct (tight_gate reg en vo); [|constructor].
-  destruct (tight_step v_tight_tree root st m) as [ops st'] eqn:E.
+  intros root ms. induction ms as [|m rest IH]; intros st Hn; cbn [tight_run]; [constructor|].
+  destruct (tight_step_g v_tight_fixed root st m) as [ops st'] eqn:E.
   destruct (step_ok _ _ _ _ _ Hn E) as [H1 H2]. apply Forall_app. split; auto.
 Qed.
 
-(* every message type is gated: nothing unless registered, switched on and not view-only *)
-Theorem tight_every_entry_gated : forall v reg en vo root st ms,
-  tight_gate reg en vo = false -> tight_run v reg en vo root st ms = [].
-Proof. intros. destruct ms; cbn [tight_run]; auto. rewrite H. reflexivity. Qed.
+(* the gate is per message: with it closed no handler runs - the connection is dropped (close hook) -
+   and a dropped connection handles nothing any more *)
+Theorem tight_gate_closed : forall v root st m,
+  t_alive st = true -> tight_step_g v root st (false, m) = drop st.
+Proof. intros v root st m H. unfold tight_step_g. rewrite H. reflexivity. Qed.
 
-(* before 7654ac8: the name of a refused upload request stayed in rtcp->rcft.rcfu.fName; a later
-   rfbFileUploadFailed / completion message unlinks / utimes that unconverted name (F19b):
-   upload "/a" (created), upload "/../x" (refused), upload-failed  ->  unlink("/../x") *)
-Lemma tight_stale_name_w :
-  tight_run v_tight_prefix true true false [47; 114] tstate0
-    [TUpload [47; 97] true; TUpload [47; 46; 46; 47; 120] true; TUploadFailed true]
-  = [TCreat [47; 114; 47; 97]; TUnlink [47; 46; 46; 47; 120]].
+Theorem tight_dead_is_silent : forall v root st ms, t_alive st = false -> tight_run v root st ms = [].
+Proof.
+  intros v root st ms. revert st. induction ms as [|m rest IH]; intros st H; cbn [tight_run]; auto.
+  unfold tight_step_g. rewrite H. simpl. apply IH. exact H.
+Qed.
+
+Lemma drop_dead : forall st, t_alive (snd (drop st)) = false.
+Proof. intros st. unfold drop. destruct (close_undone st). reflexivity. Qed.
+
+(* the tree (F19c): an upload in progress, then a second upload header whose name stops after
+   "/etc/x\0": rfbCloseClient runs the close hook, which unlinks the unconverted "/etc/x" *)
+Lemma tight_closehook_w :
+  tight_run v_tight_tree [47; 114] tstate0 [(true, TUpload [47; 97] true); (true, TUploadTrunc [47; 101; 116; 99; 47; 120; 0])]
+  = [TCreat [47; 114; 47; 97]; TUnlink [47; 101; 116; 99; 47; 120]].
 Proof. vm_compute. reflexivity. Qed.
 
+(* the tree (F19d): listing a directory whose spelled-out path is long, with a long entry name *)
+Lemma tight_overflow_w :
+  In TOverflow (tight_run v_tight_tree [47; 114] tstate0
+                 [(true, TList (47 :: repeat 46 3900) [repeat 110 250])]).
+Proof. vm_compute. right. left. reflexivity. Qed.
+
 Theorem tight_every_entry_confined_refuted : exists root ms o,
-  In o (tight_run v_tight_prefix true true false root tstate0 ms) /\ ~ below_root root (tfs_path o).
+  In o (tight_run v_tight_tree root tstate0 ms) /\ ~ op_ok root o.
 Proof.
-  exists [47; 114], [TUpload [47; 97] true; TUpload [47; 46; 46; 47; 120] true; TUploadFailed true], (TUnlink [47; 46; 46; 47; 120]).
-  split. { rewrite tight_stale_name_w. right; left; reflexivity. }
+  exists [47; 114], [(true, TUpload [47; 97] true); (true, TUploadTrunc [47; 101; 116; 99; 47; 120; 0])], (TUnlink [47; 101; 116; 99; 47; 120]).
+  split. { rewrite tight_closehook_w. right; left; reflexivity. }
   intros [rel [H _]]. simpl in H. inversion H.
 Qed.
 
+Theorem tight_listing_overflow_refuted : exists root ms,
+  In TOverflow (tight_run v_tight_tree root tstate0 ms).
+Proof. exists [47; 114]. eexists. exact tight_overflow_w. Qed.
+
+(* regression witness for 7654ac8 (F19b) *)
+Lemma tight_stale_name_w :
+  tight_run v_tight_prefix [47; 114] tstate0
+    [(true, TUpload [47; 97] true); (true, TUpload [47; 46; 46; 47; 120] true); (true, TUploadFailed true)]
+  = [TCreat [47; 114; 47; 97]; TUnlink [47; 46; 46; 47; 120]].
+Proof. vm_compute. reflexivity. Qed.
+
 Example tight_confined_nonvacuous :
-  tight_run v_tight_tree true true false [47; 114] tstate0
-    [TList [47]; TUpload [47; 97] true; TUploadDone; TMkdir [47; 100]; TDownload [47; 97]]
-  = [TOpendir [47; 114; 47]; TCreat [47; 114; 47; 97]; TUtime [47; 114; 47; 97]; TMkdirOp [47; 114; 47; 100];
-     TStat [47; 114; 47; 97]; TOpenR [47; 114; 47; 97]].
+  tight_run v_tight_fixed [47; 114] tstate0
+    [(true, TList [47] [[46]; [102]]); (true, TUpload [47; 97] true); (true, TUpload [47; 98] true); (true, TUploadDone);
+     (true, TMkdir [47; 100]); (true, TDownload [47; 97]); (true, TUpload [47; 99] true); (false, TDownloadCancel); (true, TList [47] [])]
+  = [TOpendir [47; 114; 47]; TStatEntry [47; 114; 47] [102]; TCreat [47; 114; 47; 97]; TUnlink [47; 114; 47; 97]; TCreat [47; 114; 47; 98];
+     TUtime [47; 114; 47; 98]; TMkdirOp [47; 114; 47; 100]; TStat [47; 114; 47; 97]; TOpenR [47; 114; 47; 97];
+     TCreat [47; 114; 47; 99]; TUnlink [47; 114; 47; 99]].
 Proof. vm_compute. reflexivity. Qed.
 
 (* ------------------------------------------------------------------ arguments and initialisation *)
